@@ -170,7 +170,7 @@ def check_absorb(ck, mod, ks, label, rulemap):
     for p in ps:
         if p.end[0] == "loop-entry":
             ini_p, ini_n = p.env.get(("init", ptrs[0].id)), p.env.get(("init", ints[0].id))
-            okp = (not is_word(ini_p)) and ini_p == Lf.s(("arg", f.param_index("data"))) and ini_n == Lf.s(("arg", f.param_index("size")))
+            okp = (not is_word(ini_p)) and ini_p == Lf.s(("arg", f.param_index("data"))) and ini_n == Lf.s(("n", f.param_index("size")))
             c.ob(okp and not calls_of(p), "ADVANCE", "absorb-init", "cursor starts at data, remaining length at size; nothing happens before the loop",
                  "loop starts with cursor=%s remaining=%s / events %s" % (ini_p, ini_n, calls_of(p)))
             n += 1
@@ -206,7 +206,7 @@ def check_absorb(ck, mod, ks, label, rulemap):
         want_in = [S[0], gf2.wxor(S[1], D), S[2], S[3]]
         c.ob(mode.words_eq(got_in, want_in), "MODE", "absorb-%s-input" % name, "domain added to word 1 before the permutation",
              "state entering the permutation differs: %s" % mode.first_diff(got_in, want_in), where=relpath(f.insts[e[5]].where))
-        c.ob(e[2] == repr(Lf.s(("arg", ri))), "MODE", "absorb-%s-rounds" % name, "permutation runs the caller's round count", "round count passed is %s, not the rounds parameter" % (e[2],))
+        c.ob(e[2] == repr(Lf.s(("n", ri))), "MODE", "absorb-%s-rounds" % name, "permutation runs the caller's round count", "round count passed is %s, not the rounds parameter" % (e[2],))
         Q = mode.Pw(e[1])
         inb = [mode.inbyte(cur, k) for k in range(r)]
         x = mode.le_bytes(inb, r)
@@ -241,10 +241,10 @@ def check_cipher(ck, mod, f, label, rulemap):
         raise Broken("%s: expected exactly one loop, found %d: unrecognised shape" % (f.name, len(f.loops)))
     hdr = f.loops[0]["header"]
     ptrs, ints = hd_syms(f, hdr)
-    if len(ptrs) != 2 or len(ints) != 1:
-        raise Broken("%s: expected two cursors and one remaining length at the loop head (found %d, %d)" % (f.name, len(ptrs), len(ints)))
+    if len(ptrs) > 2 or len(ints) != 1:
+        raise Broken("%s: expected at most two cursors and one remaining length at the loop head (found %d, %d)" % (f.name, len(ptrs), len(ints)))
     rem = ("hd", ints[0].id)
-    A = {nm: ("arg", f.param_index(nm)) for nm in ("c", "m", "ad", "npub", "k", "clen", "mlen", "adlen")}
+    A = {nm: irx.argsym(f, f.param_index(nm)) for nm in ("c", "m", "ad", "npub", "k", "clen", "mlen", "adlen")}
     enc = direction == "encrypt"
     in_name, out_name, len_name = ("m", "c", "mlen") if enc else ("c", "m", "clen")
     st = mode.find_state_obj(f)
@@ -309,7 +309,8 @@ def check_cipher(ck, mod, f, label, rulemap):
             want_n = Lf.s(A["mlen"]) if enc else Lf({A["clen"]: 1, 1: -8})
             okc = set(repr(inits[I.id]) for I in ptrs) == {repr(Lf.s(A["m"])), repr(Lf.s(A["c"]))} and inits[ints[0].id] == want_n
             c.ob(okc, "ADVANCE", "cursor-init", "cursors start at m and c, remaining length at %s" % want_n,
-                 "loop starts with cursors %s and remaining %s" % ([repr(inits[I.id]) for I in ptrs], inits[ints[0].id]))
+                 "loop-carried cursors are %s and remaining %s; expected cursors starting at m and c that advance with the data (a cursor that is not loop-carried never advances)"
+                 % ([repr(inits[I.id]) for I in ptrs], inits[ints[0].id]))
             for I in ptrs:
                 if inits[I.id] == Lf.s(A[in_name]):
                     in_cur = ("hdp", I.id)
@@ -317,8 +318,13 @@ def check_cipher(ck, mod, f, label, rulemap):
                     out_cur = ("hdp", I.id)
             n += 3
             continue
-    if in_cur is None or out_cur is None:
-        raise Broken("%s: cannot identify input/output cursors" % f.name)
+    # a cursor that is not loop-carried: the parameter object itself (its missing advance was reported above)
+    static_in = in_cur is None
+    static_out = out_cur is None
+    if in_cur is None:
+        in_cur = A[in_name]
+    if out_cur is None:
+        out_cur = A[out_name]
     for p in ps:
         ev = calls_of(p)
         if p.end[0] == "loop-entry":
@@ -330,7 +336,9 @@ def check_cipher(ck, mod, f, label, rulemap):
             r, name = 4, "block"
             okg = any(cc[0] == "uge" and cc[2] and cc[1] == Lf({rem: 1, 1: -4}) for cc in p.conds)
             c.ob(okg, "ADVANCE", "guard", "a full block is processed only when at least 4 bytes remain", "loop guard is not 'remaining >= 4'")
-            bi, bo, bn = p.env.get(("back", in_cur[1])), p.env.get(("back", out_cur[1])), p.env.get(("back", ints[0].id))
+            bi = p.env.get(("back", in_cur[1])) if not static_in else Lf.s(in_cur)
+            bo = p.env.get(("back", out_cur[1])) if not static_out else Lf.s(out_cur)
+            bn = p.env.get(("back", ints[0].id))
             c.ob(bi == Lf({in_cur: 1, 1: 4}) and bo == Lf({out_cur: 1, 1: 4}) and bn == Lf({rem: 1, 1: -4}), "ADVANCE", "advance",
                  "both cursors += 4 and remaining -= 4 per block", "after a block: input cursor %s, output cursor %s, remaining %s (lock-step broken)" % (bi, bo, bn))
             n += 2
